@@ -111,6 +111,9 @@ def worker_sweep(argv):
     tier, start, stride, deadline, outfile = argv
     start, stride, deadline = int(start), int(stride), float(deadline)
     plans = gen.sweep_plans(tier)
+    import gc
+    gc.collect()
+    gc.freeze()      # ~10^6 plan objects must not be walked by every run's gc.collect()
     res = {"total": len(plans), "done": 0, "by_kind": {}, "outcome": {}, "violations": [],
            "harness_errors": [], "fired": 0, "stopped_early": False, "samples": []}
     for i in range(start, len(plans), stride):
